@@ -21,6 +21,7 @@ const (
 	OpAppendMsg
 	OpMapMsg
 	OpUnknown
+	OpFill // set every required field of the message (recursively for required message fields)
 )
 
 // Slot is one population action, addressed by field number so that it applies
@@ -89,6 +90,10 @@ func Apply(m protoreflect.Message, s *Slot, res ExtResolver) {
 		m.SetUnknown(append(append(protoreflect.RawFields{}, m.GetUnknown()...), s.Raw...))
 		return
 	}
+	if s.Op == OpFill {
+		FillRequired(m)
+		return
+	}
 	fd := fieldOf(m, s, res)
 	switch s.Op {
 	case OpSet:
@@ -116,6 +121,46 @@ func Apply(m protoreflect.Message, s *Slot, res ExtResolver) {
 			Apply(v, s.Sub, res)
 		}
 	}
+}
+
+// FillRequired sets every required field of m that is not yet populated.
+func FillRequired(m protoreflect.Message) {
+	md := m.Descriptor()
+	nums := md.RequiredNumbers()
+	for i := 0; i < nums.Len(); i++ {
+		fd := md.Fields().ByNumber(nums.Get(i))
+		if fd.Message() != nil {
+			FillRequired(m.Mutable(fd).Message())
+			continue
+		}
+		if m.Has(fd) {
+			continue
+		}
+		vals := ScalarValues(fd, Opt{Thin: true})
+		m.Set(fd, copyVal(vals[len(vals)-1]))
+	}
+}
+
+// HasRequired reports whether md or anything reachable from it declares a
+// required field.
+func HasRequired(md protoreflect.MessageDescriptor) bool {
+	return hasRequired(md, map[protoreflect.FullName]bool{})
+}
+
+func hasRequired(md protoreflect.MessageDescriptor, seen map[protoreflect.FullName]bool) bool {
+	if seen[md.FullName()] {
+		return false
+	}
+	seen[md.FullName()] = true
+	if md.RequiredNumbers().Len() > 0 {
+		return true
+	}
+	for i := 0; i < md.Fields().Len(); i++ {
+		if sub := md.Fields().Get(i).Message(); sub != nil && hasRequired(sub, seen) {
+			return true
+		}
+	}
+	return false
 }
 
 // Build applies slots in order to a new message of type mt.
@@ -188,6 +233,9 @@ func Alphabet(md protoreflect.MessageDescriptor, depth int, o Opt) []*Slot {
 	}
 	nested := func(sub protoreflect.MessageDescriptor) []*Slot {
 		subs := []*Slot{nil}
+		if o.Fill && depth <= 1 && sub.RequiredNumbers().Len() > 0 {
+			subs = append(subs, &Slot{Op: OpFill, Name: "FILL"})
+		}
 		if depth > 1 {
 			so := o
 			so.Thin = true
@@ -266,6 +314,9 @@ func Alphabet(md protoreflect.MessageDescriptor, depth int, o Opt) []*Slot {
 				}
 			}
 		}
+	}
+	if o.Fill && md.RequiredNumbers().Len() > 0 {
+		out = append(out, &Slot{Op: OpFill, Name: "FILL"})
 	}
 	for _, fd := range SortedFields(md) {
 		addField(fd, false)
